@@ -12,5 +12,10 @@ props = {json.loads(l)["id"]: json.loads(l) for l in open("/verif/properties.jso
 p = props[pid]
 text = "Title: %s\n\nStatement: %s\n\nIt must hold: %s" % (p["title"], p["statement"], p["quantifier"]["text"])
 tmpl = open("/verif/work/prompts/mutant_template.txt").read()
+import glob
+prev = []
+for mp in sorted(glob.glob("/verif/seeded/%s-*/meta.json" % pid)):
+    prev.append("- " + json.load(open(mp))["needs_to_manifest"])
+tmpl = tmpl.replace("{PREV}", "\n" + "\n".join(prev) if prev else "(none)")
 open(os.path.join(wt, "TASK.md"), "w").write(tmpl.replace("{WT}", wt).replace("{PROP}", text).replace("{VARIANT}", variant))
 print(wt)
